@@ -7,7 +7,7 @@
 #include "fiber_cond.h"
 #include "rt_common.h"
 
-#define MAXF 160
+#define MAXF 700
 static int nf, Y, chain;
 static int g_ready[MAXF], g_bypass[MAXF], g_done[MAXF], g_maxbypass, g_runs;
 static int ycount[MAXF];
